@@ -140,6 +140,11 @@ def scenarios(tier: str) -> List[Dict[str, Any]]:
                 amsgs = [dict(m, ack="async", gates=["ack"]) for m in msgs]
                 out.append({"A": 3, "P": 1, "N": None, "stream": "finite", "stop": False, "level": 0, "deps": g, "msgs": amsgs,
                             "ack_type": "when_received", "mws": [{"hooks": {"pre_execute": "gated", "post_execute": "gated"}}]})
+    # saturated worker with a filled prefetch queue: two executions end in the same loop iteration and the next
+    # two messages are started back to back (each must still see its own message)
+    g = {"roots": ["p"], "task_ctx": True, "nodes": {"p": _node(("plain", True), [], True)}}
+    msgs = [{"task": "dep", "body": "gated", "value": f"R{i}", "labels": {"who": f"w{i}"}} for i in range(5)]
+    out.append({"A": 2, "P": 2, "N": None, "stream": "finite", "stop": False, "level": 1, "deps": g, "msgs": msgs, "max_body": 3})
     return out
 
 
